@@ -84,6 +84,18 @@ pub fn c08(o: &Opts) -> Outcome {
             if let Some(w) = c08_batch(&recs, k, 2, 3, true, 2, mem) { return Outcome { cases, witness: Some(w) }; }
         }
     }
+    // many records (more than any per-batch record limit) with one, two and many workers; one long record among them
+    {
+        let mut recs: Vec<Vec<u8>> = (0..1500).map(|i| { let l = 9 + (i * 5 % 17) as usize; (0..l).map(|j| b"ACGT"[(i + j * j + i / 3) % 4]).collect() }).collect();
+        recs.insert(700, (0..70_000usize).map(|i| b"ACGGTCATTGACCAGT"[(i * 7 + i / 13) % 16]).collect());
+        for threads in [1usize, 2, 16] {
+            cases += recs.len() as u64;
+            if let Some(mut w) = c08_batch(&recs, 7, 3, 5, false, threads, 6.0) {
+                for kv in w.iter_mut() { if kv.0 == "records" { kv.1 = "<1500 short records and one of 70000 bases>".into(); } }
+                return Outcome { cases, witness: Some(w) };
+            }
+        }
+    }
     // records of exactly k, k+1 and k-1 bases (one window, two windows, none), also after an ambiguous byte
     for k in [4usize, 7, 15] {
         let base: Vec<u8> = (0..k + 1).map(|i| b"ACGGTCATTGACCAGTTAGG"[i % 20]).collect();
